@@ -164,5 +164,7 @@ def run(tier):
             rep.ob("span.symbol-is-recovery-symbol", "middle <- %s" % sorted(d[1].split("::")[-1] for d in ro if d[0] == "call"),
                    all(d[0] == "call" and d[1].endswith("ParserDefinition::error_recovery_symbol") for d in ro) and bool(ro), "",
                    key="span-symbol", file=rel, line=a["ln"], fn=er.path)
+    from .smachine import check_reduce_lookahead
+    check_reduce_lookahead(rep, f)
     errorcol.check(rep, f, "errorcol.")
     return rep
